@@ -13,7 +13,7 @@ The judge compares the *results* (names / errors).  The property text is evaluat
 (`oracle`, written from the property statement on a strict parser of the documented template grammar); violation=True only when the
 case is inside the documented grammar and the implementation's results differ from that reference.  VERIF_C15_STRICT=1 also
 compares parsed files, variables after every request and the final invalid list (used to validate the Model; a difference there is
-reported with violation=False).  VERIF_C15_LEGACY=1 runs the Model with the pre-repair switches (validation of the unfixed code)."""
+reported with violation=False).  VERIF_C15_LEGACY=1 runs the Model with the three pre-repair switches (validation of the unfixed code)."""
 import itertools
 import os
 import re
@@ -27,7 +27,7 @@ RULE = ('templates generated from the documented grammar (0-3 static names, opti
         'request histories of length 0-12 (bindings drawn from a small pool so that values repeat, are missing, are empty, contain '
         'blanks / forbidden characters / dots / slashes, or equal numbered candidates) x forbidden-character sets x reserved names x '
         'extensions; an exhaustive small-scope stream (fixed template list x all binding sequences up to length 3 over 5 bindings x '
-        'reserved sets); a collision/bail-out stream; a malformed stream of raw strings over "$ { } ( ) [ ] , . blank a 1 _". '
+        'reserved sets); a collision/bail-out stream; a long-history stream (101-150 requests, reserved numbers near 100); a malformed stream of raw strings over "$ { } ( ) [ ] , . blank a 1 _". '
         'Non-trivial = at least 2 requests, a variable in the template, and a skip, an unbound alternative, an error or the wildcard '
         'phase reached.')
 TRUSTED = ['modelled, not verified: Python re (the six normalising substitutions, keysre.findall, the format-stripping substitution) '
@@ -261,6 +261,17 @@ def streams(rng, tier, boost):
     return _cap_bailouts(_streams(rng, tier, boost), 150 if tier == 'quick' else 3000)
 
 
+def long_case(rng):
+    """more than 100 requests against a numbered wildcard with a few reserved numbers: the give-up bound must count per request"""
+    stem = rng.choice(['sect', 'n', ''])
+    w = rng.choice(['', '(3)'])
+    n = rng.choice([101, 103, 110, 120, 150])
+    res = sorted(set(rng.randint(90, n + 5) for _ in range(rng.randint(1, 4))))
+    fmt = (lambda i: '%s%03d' % (stem, i)) if w else (lambda i: '%s%d' % (stem, i))
+    return dict(spec=rng.choice(['%s$num%s', '[$id, %s$num%s]', 'index [%s$num%s]']) % (stem, w), charsub=None, vars0=[], ext='',
+                invalid=[fmt(i) for i in res], reqs=[[] for _ in range(n)])
+
+
 def _streams(rng, tier, boost):
     out = []
     depth = 2 if tier == 'quick' else 3
@@ -275,6 +286,8 @@ def _streams(rng, tier, boost):
         out.append(('collision', collision_case(rng)))
     for _ in range((4000 if tier == 'quick' else 60000) * (boost if tier == 'quick' else 1)):
         out.append(('malformed', malformed_case(rng)))
+    for _ in range(12 if tier == 'quick' else 200):
+        out.append(('long-history', long_case(rng)))
     return out
 
 
@@ -288,7 +301,7 @@ def model_input(case):
     cs = case['charsub']
     return [S(case['spec']), [] if cs is None else [S(cs[0]), S(cs[1])], [[S(k), S(v)] for k, v in case['vars0']], S(case['ext']),
             [S(x) for x in case['invalid']], [[[S(k), S(v)] for k, v in b] for b in case['reqs']],
-            case.get('legacy', LEGACY), case.get('legacy', LEGACY)]
+            case.get('legacy', LEGACY), case.get('legacy', LEGACY), case.get('legacy', LEGACY)]
 
 
 def describe(case):
@@ -560,10 +573,9 @@ def oracle(case, t):
                 name = cand
         if name is None:
             info['wild'] += 1
-            used = 0
+            passes = 0            # the give-up bound belongs to the request
             while True:
                 passes += 1
-                used += 1
                 for alt in wild:
                     try:
                         cand, numbered = expand(alt, ns, num)
@@ -696,7 +708,7 @@ def judge(case, io, mo):
     elif got is None:
         key = 'returns-none'
     elif got == 'error':
-        key = 'error-although-fresh-name-exists'
+        key = 'error-although-fresh-name-exists' + (':history-over-12-requests' if len(case['reqs']) > 12 else '')
     elif want == 'error':
         key = 'name-instead-of-error'
     else:
@@ -747,32 +759,45 @@ def tags(case, io):
     return out
 
 
+def _tidy(spec):
+    for pat, rep in ((r'\$\{\s*(\w+)\s*\}', r'${\1}'), (r'\(\s*(\d+)\s*\)', r'(\1)'), (r'\s*,\s*', ','), (r'\[\s+', '['), (r'\s+\]', ']')):
+        spec = re.sub(pat, rep, spec)
+    return spec
+
+
 def shrink(case):
-    """smaller cases, most effective first (the driver tries the first 40 of each round)"""
+    """smaller cases; the driver evaluates the first 40 of a round and restarts after the first success, a few rounds only --
+    so big composite steps come first"""
     reqs = case['reqs']
     spec = case['spec']
-    for i in range(len(reqs) - 1, -1, -1):
-        yield dict(case, reqs=reqs[:i] + reqs[i + 1:])
-    # tidy the template: blanks, brace styles, widths, single alternatives
-    for pat, rep in ((r'\$\{\s*(\w+)\s*\}', r'${\1}'), (r'\(\s*(\d+)\s*\)', r'(\1)'), (r'\s*,\s*', ','), (r'\[\s+', '['), (r'\s+\]', ']')):
-        s2 = re.sub(pat, rep, spec)
-        if s2 != spec:
-            yield dict(case, spec=s2)
-    names = spec.split(' ')
-    if len(names) > 1 and not re.search(r'\[[^\]]* ', spec) and not re.search(r'[({][^)}]* ', spec):
+    if case['charsub'] is not None or case['ext'] or case['invalid'] or case['vars0']:
+        yield dict(case, charsub=None, ext='', invalid=[], vars0=[])
+    for k in range(1, len(reqs)):
+        yield dict(case, reqs=reqs[:k])
+    tidy = _tidy(spec)
+    if tidy != spec:
+        yield dict(case, spec=tidy)
+    names = tidy.split()
+    if len(names) > 1:
+        for nm in names:
+            yield dict(case, spec=nm)
         for i in range(len(names)):
             yield dict(case, spec=' '.join(names[:i] + names[i + 1:]))
+    if len(reqs) > 1:
+        for i in range(len(reqs) - 1, -1, -1):
+            yield dict(case, reqs=reqs[:i] + reqs[i + 1:])
+    for i, b in enumerate(reqs):
+        if len(b) > 1:
+            for j in range(len(b)):
+                yield dict(case, reqs=reqs[:i] + [b[:j] + b[j + 1:]] + reqs[i + 1:])
     m = re.search(r'\[([^\]]*)\]', spec)
     if m:
         alts = m.group(1).split(',')
         if len(alts) > 1:
+            for a in alts:
+                yield dict(case, spec=spec[:m.start(1)] + a + spec[m.end(1):])
             for i in range(len(alts)):
                 yield dict(case, spec=spec[:m.start(1)] + ','.join(alts[:i] + alts[i + 1:]) + spec[m.end(1):])
-    for mm in re.finditer(r'\(\d+\)', spec):
-        yield dict(case, spec=spec[:mm.start()] + spec[mm.end():])
-    for i, b in enumerate(reqs):
-        for j in range(len(b)):
-            yield dict(case, reqs=reqs[:i] + [b[:j] + b[j + 1:]] + reqs[i + 1:])
     if case['invalid']:
         inv = case['invalid']
         if len(inv) > 8:
@@ -781,13 +806,16 @@ def shrink(case):
         else:
             for i in range(len(inv)):
                 yield dict(case, invalid=inv[:i] + inv[i + 1:])
-    if case['vars0']:
-        for i in range(len(case['vars0'])):
-            yield dict(case, vars0=case['vars0'][:i] + case['vars0'][i + 1:])
     if case['charsub'] is not None:
         yield dict(case, charsub=None)
     if case['ext']:
         yield dict(case, ext='')
+    if case['vars0']:
+        yield dict(case, vars0=[])
+    for mm in re.finditer(r'\(\d+\)', spec):
+        yield dict(case, spec=spec[:mm.start()] + spec[mm.end():])
+    for mm in re.finditer(r'\$\{\w+\}(\(\d+\))?|\$\w+(\(\d+\))?|[A-Za-z0-9_.-]+', spec):
+        yield dict(case, spec=spec[:mm.start()] + spec[mm.end():])
     for i, b in enumerate(reqs):
         for j, (k, v) in enumerate(b):
             if len(v) > 1:
